@@ -1,5 +1,6 @@
 (* C14: specification of WeightedForest.partition on proper dendrograms. *)
 From Coq Require Import List Bool ZArith QArith Lia Lqa Arith.
+From NV.Generated Require Import ClusteringFrags.
 From NV.C14 Require Import Model ProofsK ModelH.
 From NV.C14 Require Import ProofsH.
 Import ListNotations.
@@ -205,7 +206,7 @@ Lemma partition_spec d n G feat parents height th :
     forall x y, (x < n)%nat -> (y < n)%nat ->
       (nth x u 0%nat = nth y u 0%nat <->
        exists a, Under parents x a /\ Under parents y a /\ nth a height 0 < th).
-Proof. intros PD Hn Hitems Hpos. unfold partition.
+Proof. intros PD Hn Hitems Hpos. unfold partition. unfold src_partition_strict. cbv iota.
   set (valid := fun v => Qltb (nth v height 0) th).
   assert (Hiv : forall x, (x < n)%nat -> valid x = true) by (intros x Hx; apply Qltb_intro; now apply Hitems).
   assert (E : existsb valid (seq 0 (length parents)) = true).
@@ -230,7 +231,14 @@ Proof. intros PD Hn Hpos V c k'. split; intros Hk; unfold split; fold V; fold c;
   - assert (E : Nat.leb k' c = true) by (now apply Nat.leb_le). rewrite E. eexists. split; [reflexivity|].
     destruct (cut_spec d n G feat parents height (fun _ => true) PD Hn (fun _ _ => eq_refl) (fun _ _ => eq_refl)) as [HL HS].
     split; [exact HL|]. intros x y Hx Hy. rewrite (HS x y Hx Hy). split; intros (a & H); exists a; tauto.
-  - assert (E : Nat.leb k' c = false) by (apply Nat.leb_gt; lia). now rewrite E. Qed.
+  - assert (E : Nat.leb k' c = false) by (apply Nat.leb_gt; lia). rewrite E.
+    assert (Hk' : (k' <= V)%nat) by (unfold k'; lia).
+    assert (Ei : py_index V (src_split_index (Z.of_nat c) (Z.of_nat k')) = Some (V + c - k')%nat).
+    { unfold py_index, src_split_index.
+      assert (E1 : (Z.of_nat c - Z.of_nat k' <? 0)%Z = true) by (apply Z.ltb_lt; lia). rewrite E1.
+      assert (E2 : (- (Z.of_nat c - Z.of_nat k') <=? Z.of_nat V)%Z = true) by (apply Z.leb_le; lia). rewrite E2.
+      f_equal. lia. }
+    now rewrite Ei. Qed.
 
 
 (* ------------------------------------------------ clusters are connected *)
